@@ -32,6 +32,9 @@ func runC06(p *eng.Prog, r *eng.Report, tier string) {
 	chanRules(c, "C06.3", scope, why)
 	c06Waiters(c)
 	c06JoinCtx(c)
+	serveWait(c, "C06.9")
+	waitKey(c, "C06.10")
+	handoffDrained(c, "C06.2")
 	// C06.6 the library's own helpers release every response they obtain
 	respRelease(c, "C06.6", 8)
 	// C06.8 waiter-table registrations are withdrawn when the wait is cancelled
